@@ -89,6 +89,13 @@ def run(name, tier='quick', props=None):
     rc, out = sh('git -C /repo apply %s' % os.path.join(d, 'patch.diff'))
     assert rc == 0, out
     verdicts = {}
+    # the evidence files under /verif/evidence describe the UNCHANGED tree: keep them (and the generated
+    # Lean tables) as they were; a run against a seeded change must not leave its traces behind
+    saved = {}
+    for p in props:
+        ev = os.path.join(V, 'evidence', p + '.json')
+        if os.path.exists(ev):
+            saved[ev] = open(ev, 'rb').read()
     try:
         for p in props:
             rc, out = sh('./check %s %s' % (p, tier), cwd=V, timeout=3600)
@@ -97,6 +104,9 @@ def run(name, tier='quick', props=None):
                            'detail': [l for l in out.split('\n') if l.startswith('  ')][:3]}
     finally:
         sh('git -C /repo checkout -- .')
+        for ev, data in saved.items():
+            open(ev, 'wb').write(data)
+        sh('/venv/bin/python harness/regen.py', cwd=V, timeout=600)
     meta.setdefault('detected_by', {})
     for p, v in verdicts.items():
         meta['detected_by'][p + '/' + tier] = v
